@@ -69,6 +69,7 @@ type Ctx struct {
 	known     []KnownFinding
 	samples   []interface{}
 	drift     []string
+	ndrift    int
 	inconcl   []string
 	distinct  map[string]struct{}
 	evals     int64
@@ -164,11 +165,15 @@ func (c *Ctx) Assumption(s string) { c.Assume = append(c.Assume, s) }
 
 func (c *Ctx) Drift(s string) {
 	c.mu.Lock()
+	c.ndrift++
+	show := c.ndrift <= 20
 	if len(c.drift) < 50 {
 		c.drift = append(c.drift, s)
 	}
 	c.mu.Unlock()
-	fmt.Printf("DRIFT property=%s %s\n", c.ID, s)
+	if show {
+		fmt.Printf("DRIFT property=%s %s\n", c.ID, s)
+	}
 }
 
 func (c *Ctx) Inconclusive(s string) {
